@@ -398,8 +398,10 @@ class Run(object):
             "wall_s": round(time.time() - self.t0, 2),
             "violations": len(self.violations),
         }
-        os.makedirs(os.path.join(VERIF, "evidence"), exist_ok=True)
-        path = os.path.join(VERIF, "evidence", self.pid + ".json")
+        # X.. = specification coverage beyond the listed properties: its record is kept apart from the properties' evidence
+        sub = "evidence" if self.pid.startswith("C") else "evidence_extra"
+        os.makedirs(os.path.join(VERIF, sub), exist_ok=True)
+        path = os.path.join(VERIF, sub, self.pid + ".json")
         with open(path + ".tmp", "w") as f:
             json.dump(ev, f, indent=1, default=repr, sort_keys=True)
         os.replace(path + ".tmp", path)
